@@ -49,17 +49,24 @@ def build(u):
     text = re.sub(r'(?m)^\s*//[/!][^\n]*\n', '', text)
     u.count('R-derive')
     u.emit_text('types::DecodedMap', text, origin)
-    u.raw('stub SourceMapHermes', '//@@ prelude hermes_stub\n#[verifier::external_body]\npub struct SourceMapHermes { _x: u8 }\n//@@ endprelude\n')
+    from .common import emit_struct as _es
+    _es(u, 'src/hermes.rs', 'HermesScopeOffset')
+    _es(u, 'src/hermes.rs', 'HermesFunctionMap')
+    _es(u, 'src/hermes.rs', 'SourceMapHermes')
     u.spec('order.rs')
     u.spec('index.rs')
     u.spec('index_decode.rs')
     # the three decoders behind the dispatch: bodies live in other units / are out of scope here
+    # decode_regular (U10) and decode_hermes (U16) behind the dispatch: their contracts
+    for pr in ['shim_str_bytes.rs', 'shim_string_bytes.rs', 'shim_option_or.rs', 'shim_int.rs', 'shim_enumerate.rs', 'shim_split.rs', 'bitvec_stub.rs']:
+        u.prelude(pr)
+    for sp in ['tokens.rs', 'root.rs', 'vlq.rs', 'mappings.rs', 'bits.rs', 'mappings_dec.rs', 'decode_regular.rs', 'hermes_decode.rs', 'hermes_wrap.rs']:
+        u.spec(sp)
+    from .u10_tail import skeleton
+    from .u16_hermes_decode import wrapper
+    u.import_fn(skeleton(u), 'decoder::decode_regular', 'u10_tail.ctr', 'u10_tail')
+    u.import_fn(wrapper(u), 'hermes::decode_hermes', 'u16_hermes_decode.ctr', 'u16_hermes_decode')
     u.raw('stub decoders', '''//@@ prelude decoders_stub
-//# assumes: nothing about decode_regular / decode_hermes beyond their signatures (they are called, not inspected, by the dispatch)
-#[verifier::external_body]
-pub fn decode_regular(rsm: RawSourceMap) -> Result<SourceMap> { unimplemented!() }
-#[verifier::external_body]
-pub fn decode_hermes(rsm: RawSourceMap) -> Result<SourceMapHermes> { unimplemented!() }
 //# assumes: the recursive call decode_index -> decode_common terminates (nesting bounded by serde_json's recursion limit); its result satisfies decode_common's own contract, proved in this unit
 #[verifier::external_body]
 pub fn decode_common__rec(rsm: RawSourceMap) -> (res: Result<DecodedMap>)
